@@ -39,7 +39,7 @@ HOSTILE = [
     '\\begin{x}', '\\textbf{x}', '\\newline', '\\item', '\\verb|x|', '~', 'a\\b', '\\a', ']', '|',
     '100%', '{a', 'a}', '\\^', '^^M', '\\[', '\\(', '$#{}&_%^\\', '|!"\'=+#$%&()',
     '|!"\'=+#$%&()*', ALLPUNCT, ALLPUNCT + string.digits, 'é{', '%7B', 'a b', '\\%', '\\#',
-    '}\\end{itemize}', '\\\\{', '\\}{', '_}', 'a\\', '{\\', '\\textbackslash', '$}', '#}', '%{',
+    string.punctuation + string.digits, '}\\end{itemize}', '\\\\{', '\\}{', '_}', 'a\\', '{\\', '\\textbackslash', '$}', '#}', '%{',
 ]
 
 # (kind, template).  Kinds whose slot honours backslash escapes get the escaped spelling of H.
@@ -49,10 +49,10 @@ TEMPLATES = [
     ('text', 'p{H}q\n==='), ('text', '- p{H}q'), ('text', '1. p{H}q'), ('text', '> p{H}q'),
     ('text', '| p{H}q | b |\n|---|:-:|\n| c | p{H}q |'), ('text', '[p{H}q](u)'),
     ('text', '- a\n  - p{H}q'), ('text', '> - *p{H}q*'), ('text', '# [**p{H}q**](u)'),
-    ('url', '[t]({H})'), ('url', '[t](<{H}>)'), ('url', '[r]: {H}\n\n[r]'),
+    ('url', '[t]({H})'), ('url', '[t](<{H}>)'), ('url', '[t]({H} "title")'),
     ('url', '# [t]({H})'), ('url', '| [t]({H}) | b |\n|---|---|'),
     ('autolink', '<http://{H}>'), ('autolink', '<ab:{H}>'), ('autolink', '**<http://x/{H}>**'),
-    ('src', '![a]({H})'), ('src', '![a](<{H}>)'), ('src', '[r]: {H}\n\n![r]'),
+    ('src', '![a]({H})'), ('src', '![a](<{H}>)'), ('src', '![a]({H} "title")'),
     ('src', '*![a]({H})*'),
     ('hidden', '![p{H}q](u)'), ('hidden', '[t](u "{H}")'), ('hidden', '![a](u \'{H}\')'),
     ('info', '```{H}\ncode\n```'), ('info', '~~~{H}\ncode\n~~~'), ('info', '``` {H} rest\nc\n```'),
@@ -286,7 +286,7 @@ def monitor(out, doc):
 def classify(z, facts):
     if z['code'] == 'verb-in-argument':
         return 'verb-inside-macro-argument'
-    if z['code'] in ('verb-star-form',):
+    if z['code'] == 'verb-star-form' or (z.get('ctx') == 'verb' and z.get('star')):
         return 'verb-star-delimiter'
     if z.get('ctx') == 'includegraphics':
         return 'includegraphics-src-raw'
@@ -412,11 +412,11 @@ def _run_slots(job):
             skel = skel_cache[template]
             if skel is None:
                 continue
-            rx = slot_regex(kind, h, skel)
+            rx = slot_regex(kind, h, _body(skel))
             if rx is None:
                 continue
             acc.res['contract_evaluations'] += 1
-            if re.fullmatch(rx, out, re.S) is None:
+            if re.fullmatch(rx, _body(out), re.S) is None:
                 cls = {'text': 'backslash-unescaped' if '\\' in h else 'text-escape',
                        'info': 'lstlisting-language-raw', 'src': 'includegraphics-src-raw',
                        'url': 'url-escape', 'autolink': 'url-escape', 'hidden': 'hidden-leaks',
@@ -431,6 +431,12 @@ def _run_slots(job):
     if job:
         acc.sample = {'domain': 'GRAMMAR-slot', 'input': slot_markdown(*job[len(job) // 2])}
     return acc.result()
+
+
+def _body(out):
+    """the part after the preamble (the package list depends on which token kinds occurred)"""
+    k = out.find('\\begin{document}\n')
+    return out if k == -1 else out[k:]
 
 
 def _dispatch(job):
@@ -454,7 +460,9 @@ EXPECTED = ('output accepted by runtime/latex_wf.py: balanced groups, properly n
 def run(tier, seed, workers):
     T = Timer()
     thorough = tier == 'thorough'
-    alpha_n = 7 if thorough else 5
+    alpha_n = 6 if thorough else 5            # exhaustive up to this length
+    alpha_slice = 7 if thorough else None      # plus one seed-selected slice of this length
+    SLICES = 4
     sig = set(SIGMA)
 
     def in_alpha(s):
@@ -499,6 +507,12 @@ def run(tier, seed, workers):
         for p in itertools.product(SIGMA, repeat=plen):
             jobs.append((_run_alpha, (''.join(p), L)))
         n_alpha += len(SIGMA) ** L
+    n_slice = 0
+    if alpha_slice:
+        for i, p in enumerate(itertools.product(SIGMA, repeat=3)):
+            if i % SLICES == seed % SLICES:
+                jobs.append((_run_alpha, (''.join(p), alpha_slice)))
+                n_slice += len(SIGMA) ** (alpha_slice - 3)
 
     def weight(j):
         fn, a = j
@@ -540,12 +554,15 @@ def run(tier, seed, workers):
     out.update({
         'domain': (
             'LaTeXRenderer().render(Document(x)) for x in SPEC (%d CommonMark 0.30 example '
-            'sources) + ALPHA: all %d strings over %r of length <= %d (exhaustive) + GRAMMAR-raw '
+            'sources) + ALPHA: all %d strings over %r of length <= %d (exhaustive)%s + GRAMMAR-raw '
             '(%d documents: %d templates x %d hostile strings written unescaped) + GRAMMAR-slot '
             '(%d documents: %d templates of kinds text/url/autolink/src/hidden/info/code/'
             'blockcode x %d hostile strings, written so that the string is literal content of '
             'the slot; additionally judged by the marker-skeleton oracle)'
-            % (len(spec), n_alpha, ''.join(SIGMA), alpha_n, len(raw), len(RAW_TEMPLATES),
+            % (len(spec), n_alpha, ''.join(SIGMA), alpha_n,
+               (' + slice %d/%d of length %d (3-character prefixes with index %% %d == seed %% '
+                '%d): %d strings' % (seed % SLICES, SLICES, alpha_slice, SLICES, SLICES, n_slice))
+               if alpha_slice else '', len(raw), len(RAW_TEMPLATES),
                len(hostile), len(slots), len(TEMPLATES), len(hostile))),
         'rule': 'one case per document; non-trivial when the output contains at least one '
                 'escaped special character, verbatim region (\\verb, lstlisting), URL / image / '
